@@ -9,12 +9,20 @@
     GLOBAL statement, for straight-line code (end of this file; definitions in Model/OptSim.v,
     proofs in Proofs/OptSimFacts.v): executing [fst (optimize c)] gives the same final state as
     executing [c] -- registers, stack pointer, the four flags, memory
-    ([C02_optimize_straight_sound]; on [Sem.run]: [C02_optimize_straight_run]).  What is NOT
-    proved: the global simulation for code with labels, branches, calls or stack operations. *)
+    ([C02_optimize_straight_sound]; on [Sem.run]: [C02_optimize_straight_run]).
+
+    GLOBAL statement, for code with labels, conditional branches and JMP, loops included
+    (definitions in Model/OptSimCF.v, proofs in Proofs/OptSimCFFacts.v): whenever the original
+    halts, the optimised code halts in the same state ([C02_optimize_cf_sound]; on [Sem.run]:
+    [C02_optimize_cf_run]) -- provided the known-compare rule (remove_both) does not fire
+    ([rb_free]): that rule is unsound as it stands, the removed compare also sets the carry
+    ([C02_cmp_rule_changes_c]).  What is NOT proved: calls, returns, stack operations, inline
+    assembly; the converse direction (the optimised code halts only if the original does). *)
 From Coq Require Import String Ascii List Bool NArith ZArith.
 From CC Require Import Base.Str Asm.Lines M6502.Isa Asm.Operand M6502.Sem
-     Model.Optimize Model.OptSem Model.OptSim Proofs.OptSemFacts Proofs.OptSimFacts.
-From CC Require Proofs.GenTemplatesFacts.
+     Model.Optimize Model.OptSem Model.OptSim Model.OptSimCF
+     Proofs.OptSemFacts Proofs.OptSimFacts Proofs.OptSimCFFacts.
+From CC Require Proofs.GenTemplatesFacts Proofs.GenLoopsFacts.
 Import ListNotations.
 
 Theorem C02_transfer_sound : forall cfg k i ahead s s',
@@ -231,3 +239,68 @@ Proof. exact lookahead_ldy_fixed. Qed.
 
 (** the ",Y" clause of [straight_ok] cannot be dropped *)
 Definition C02_zp_y_changes_a := zp_y_changes_a.
+
+(** * The global simulation theorem on code with labels and branches *)
+
+(** [halts] (Model/OptSimCF.v) is [Sem.run] *)
+Theorem C02_halts_halts_to : forall cfg c sl s s',
+  slines_of c = Some sl -> cf_ok cfg c = true -> halts cfg c s s' -> GenLoopsFacts.halts_to cfg c s s'.
+Proof. exact halts_halts_to. Qed.
+
+Theorem C02_halts_to_halts : forall cfg c s s',
+  cf_ok cfg c = true -> GenLoopsFacts.halts_to cfg c s s' -> halts cfg c s s'.
+Proof. exact halts_to_halts. Qed.
+
+(** replacing a label-free window by one that behaves alike preserves halting and the final state *)
+Theorem C02_window : forall cfg (L W W' R : code),
+  nobar W = true -> nobar W' = true -> length W = length W' ->
+  cf_ok cfg (L ++ W' ++ R) = true ->
+  (forall s r k, bytes_ok s -> bexec cfg W s = Some r ->
+     dest (L ++ W ++ R) (length L + length W) r = Some k ->
+     exists r', bexec cfg W' s = Some r' /\ dest (L ++ W ++ R) (length L + length W) r' = Some k /\
+                eq_state (bst r') (bst r)) ->
+  cf_equiv cfg (L ++ W ++ R) (L ++ W' ++ R).
+Proof. exact window. Qed.
+
+(** labels, conditional branches, JMP, loops: the optimised code halts in the same state *)
+Theorem C02_optimize_cf_sound : forall cfg c s s',
+  ports cfg = [] -> bytes_ok s -> cf_ok cfg c = true -> NoDup (lbls c) -> rb_free c = true ->
+  halts cfg c s s' ->
+  exists s'', halts cfg (fst (optimize c)) s s'' /\ eq_state s'' s'.
+Proof. exact optimize_cf_sound. Qed.
+
+(** the same on [Sem.run] *)
+Theorem C02_optimize_cf_run : forall cfg c s s',
+  ports cfg = [] -> bytes_ok s -> cf_ok cfg c = true -> NoDup (lbls c) -> rb_free c = true ->
+  GenLoopsFacts.halts_to cfg c s s' ->
+  exists s'', GenLoopsFacts.halts_to cfg (fst (optimize c)) s s'' /\ eq_state s'' s'.
+Proof. exact optimize_cf_run. Qed.
+
+(** non-vacuity: a loop; the swap and "STA w; LDA w" fire inside it, a repeated load and a JMP to
+    the next line go *)
+Theorem C02_optimize_cf_sound_example :
+  ports sim_cfg = [] /\ bytes_ok sim_state /\ cf_ok sim_cfg cf_code = true /\
+  NoDup (lbls cf_code) /\ rb_free cf_code = true /\
+  exists s' s'', halts sim_cfg cf_code sim_state s' /\
+                 halts sim_cfg (fst (optimize cf_code)) sim_state s'' /\
+                 eq_state s'' s' /\ rA s' = 6%Z /\ rX s' = 0%Z /\ rY s' = 1%Z /\
+                 mget (mem s') 128 = 6%Z.
+Proof. exact optimize_cf_sound_example. Qed.
+
+Definition C02_cf_code_optimized := cf_code_optimized.
+
+(** [rb_free] cannot be dropped: the known-compare rule removes a compare whose carry is read *)
+Theorem C02_cmp_rule_changes_c :
+  exists c s' s'',
+    cf_ok sim_cfg c = true /\ NoDup (lbls c) /\ rb_free c = false /\
+    halts sim_cfg c sim_state s' /\ halts sim_cfg (fst (optimize c)) sim_state s'' /\
+    rA s' = 3%Z /\ rA s'' = 2%Z.
+Proof. exact cmp_rule_changes_c. Qed.
+
+(** [NoDup (lbls c)] cannot be dropped *)
+Theorem C02_duplicate_label_changes_x :
+  exists c s' s'',
+    cf_ok sim_cfg c = true /\ rb_free c = true /\
+    halts sim_cfg c sim_state s' /\ halts sim_cfg (fst (optimize c)) sim_state s'' /\
+    rX s' = 0%Z /\ rX s'' = 1%Z.
+Proof. exact duplicate_label_changes_x. Qed.
